@@ -149,8 +149,85 @@ let show = function
   | RState (l, p) -> Printf.sprintf "state %s %d" (hex l) (int_of_nat p)
   | RUnsupported -> "unsupported"
 
+(* ---- self-check of the extraction: print a case and the results THIS program computed for it as
+   Gallina terms; coqc then evaluates Interp.run_case on the same term inside Coq (vm_compute) and
+   must get the same list (gen/vlib.py, selfcheck) ---- *)
+let g_nat n = Printf.sprintf "%d%%nat" (int_of_nat n)
+let g_n n = Printf.sprintf "%s%%N" (dec_of_n n)
+let g_z z = Printf.sprintf "(%s)%%Z" (dec_of_z z)
+let g_bool b = if b then "true" else "false"
+let g_bytes l = "[" ^ String.concat "; " (List.map g_n l) ^ "]"
+let g_darg = function DLit l -> "(DLit " ^ g_bytes l ^ ")" | DRef k -> "(DRef " ^ g_nat k ^ ")"
+let g_place = function PIp d -> "(PIp " ^ g_darg d ^ ")" | PB2b (d, j) -> "(PB2b " ^ g_darg d ^ " " ^ g_darg j ^ ")"
+let g_bkind = function
+  | KCbcE -> "KCbcE" | KCbcD -> "KCbcD" | KPcbcE -> "KPcbcE" | KPcbcD -> "KPcbcD" | KIgeE -> "KIgeE" | KIgeD -> "KIgeD"
+  | KCfbE -> "KCfbE" | KCfbD -> "KCfbD" | KCfb8E -> "KCfb8E" | KCfb8D -> "KCfb8D" | KOfbE -> "KOfbE" | KOfbD -> "KOfbD"
+let g_skind = function
+  | SCtr (c, be) -> "(SCtr " ^ g_nat c ^ " " ^ g_bool be ^ ")" | SOfb -> "SOfb" | SBelt -> "SBelt"
+let g_cts = function
+  | CbcCs1 -> "CbcCs1" | CbcCs2 -> "CbcCs2" | CbcCs3 -> "CbcCs3" | EcbCs1 -> "EcbCs1" | EcbCs2 -> "EcbCs2" | EcbCs3 -> "EcbCs3"
+let g_okind = function
+  | KBlock k -> "(KBlock " ^ g_bkind k ^ ")" | KBuf e -> "(KBuf " ^ g_bool e ^ ")" | KCore k -> "(KCore " ^ g_skind k ^ ")"
+  | KWrap k -> "(KWrap " ^ g_skind k ^ ")" | KCts v -> "(KCts " ^ g_cts v ^ ")"
+let g_how = function HNew -> "HNew" | HInner -> "HInner" | HSlices -> "HSlices" | HInnerSlice -> "HInnerSlice"
+let g_pad = function Pkcs7 -> "Pkcs7" | NoPadding -> "NoPadding"
+let g_sn = function SN_i32 -> "SN_i32" | SN_u32 -> "SN_u32" | SN_u64 -> "SN_u64" | SN_u128 -> "SN_u128" | SN_usize -> "SN_usize"
+let g_op = function
+  | OpNew (i, k, h, key, iv) -> Printf.sprintf "OpNew %s %s %s %s %s" (g_nat i) (g_okind k) (g_how h) (g_darg key) (g_darg iv)
+  | OpFromState (i, e, key, iv, p) ->
+    Printf.sprintf "OpFromState %s %s %s %s %s" (g_nat i) (g_bool e) (g_darg key) (g_darg iv)
+      (match p with Inl n -> "(inl " ^ g_nat n ^ ")" | Inr n -> "(inr " ^ g_nat n ^ ")")
+  | OpClone (a, b) -> Printf.sprintf "OpClone %s %s" (g_nat a) (g_nat b)
+  | OpCloneFrom (a, b) -> Printf.sprintf "OpCloneFrom %s %s" (g_nat a) (g_nat b)
+  | OpDrop i -> "OpDrop " ^ g_nat i
+  | OpBlk (i, p) -> Printf.sprintf "OpBlk %s %s" (g_nat i) (g_place p)
+  | OpBlks (i, p) -> Printf.sprintf "OpBlks %s %s" (g_nat i) (g_place p)
+  | OpPad (i, pd, ip, a, n, o) -> Printf.sprintf "OpPad %s %s %s %s %s %s" (g_nat i) (g_pad pd) (g_bool ip) (g_darg a) (g_nat n) (g_darg o)
+  | OpUnpad (i, pd, p) -> Printf.sprintf "OpUnpad %s %s %s" (g_nat i) (g_pad pd) (g_place p)
+  | OpAsync (i, p) -> Printf.sprintf "OpAsync %s %s" (g_nat i) (g_place p)
+  | OpIvState i -> "OpIvState " ^ g_nat i
+  | OpBuf (i, d) -> Printf.sprintf "OpBuf %s %s" (g_nat i) (g_darg d)
+  | OpGetState i -> "OpGetState " ^ g_nat i
+  | OpApply (i, p) -> Printf.sprintf "OpApply %s %s" (g_nat i) (g_place p)
+  | OpSeek (i, t, z) -> Printf.sprintf "OpSeek %s %s %s" (g_nat i) (g_sn t) (g_z z)
+  | OpPos (i, t) -> Printf.sprintf "OpPos %s %s" (g_nat i) (g_sn t)
+  | OpKsBlocks (i, n) -> Printf.sprintf "OpKsBlocks %s %s" (g_nat i) (g_nat n)
+  | OpApplyBlks (i, p) -> Printf.sprintf "OpApplyBlks %s %s" (g_nat i) (g_place p)
+  | OpApplyBlk (i, p) -> Printf.sprintf "OpApplyBlk %s %s" (g_nat i) (g_place p)
+  | OpRemaining i -> "OpRemaining " ^ g_nat i
+  | OpGetPos i -> "OpGetPos " ^ g_nat i
+  | OpSetPos (i, p) -> Printf.sprintf "OpSetPos %s %s" (g_nat i) (g_n p)
+  | OpWrap (a, b) -> Printf.sprintf "OpWrap %s %s" (g_nat a) (g_nat b)
+  | OpCore (a, b) -> Printf.sprintf "OpCore %s %s" (g_nat a) (g_nat b)
+  | OpCts (i, e, p) -> Printf.sprintf "OpCts %s %s %s" (g_nat i) (g_bool e) (g_place p)
+  | OpCat ds -> "OpCat [" ^ String.concat "; " (List.map g_darg ds) ^ "]"
+  | OpSub (d, o, l) -> Printf.sprintf "OpSub %s %s %s" (g_darg d) (g_nat o) (g_nat l)
+  | OpOther -> "OpOther"
+let g_res = function
+  | RBytes l -> "RBytes " ^ g_bytes l | RErr -> "RErr" | RPanic -> "RPanic" | ROk -> "ROk"
+  | RNum z -> "RNum " ^ g_z z | RNone -> "RNone"
+  | RState (l, p) -> Printf.sprintf "RState %s %s" (g_bytes l) (g_nat p) | RUnsupported -> "RUnsupported"
+
+let selfcheck_out : out_channel option ref = ref None
+let selfcheck_left = ref 0
+let selfcheck_emit name bs w dmv ops rs =
+  match !selfcheck_out with
+  | Some oc when !selfcheck_left > 0 ->
+    decr selfcheck_left;
+    Printf.fprintf oc "(* %s *)\nGoal run_case %d%%nat %d%%nat %s\n  [%s]\n  = [%s].\nProof. vm_compute. reflexivity. Qed.\n\n"
+      name bs w (match dmv with DInv -> "DInv" | DUnrel -> "DUnrel")
+      (String.concat ";\n   " (List.map g_op ops)) (String.concat ";\n     " (List.map g_res rs))
+  | _ -> ()
+
 let () =
-  let ic = open_in Sys.argv.(1) in
+  let argi = ref 1 in
+  if Array.length Sys.argv > 3 && Sys.argv.(1) = "--selfcheck" then begin
+    let oc = open_out Sys.argv.(2) in
+    output_string oc "(* generated by coq/driver/driver.ml --selfcheck: the extracted program's results, re-derived inside Coq *)\n";
+    output_string oc "From BM Require Import BlockModes Plumbing Toy Ints Ctr Belt Stream Cts Interp.\nFrom Coq Require Import List ZArith NArith.\nImport ListNotations.\n\n";
+    selfcheck_out := Some oc; selfcheck_left := int_of_string Sys.argv.(3); argi := 4
+  end;
+  let ic = open_in Sys.argv.(!argi) in
   let cur = ref None in
   let ops = ref [] in
   (try
@@ -168,10 +245,12 @@ let () =
           | Some (name, bs, w, dm) ->
             let dmv = if dm = "inv" then DInv else DUnrel in
             let rs = run_case (nat_of_int bs) (nat_of_int w) dmv (List.rev !ops) in
+            selfcheck_emit name bs w dmv (List.rev !ops) rs;
             List.iteri (fun i r -> Printf.printf "%s %d %s\n" name i (show r)) rs
           | None -> failwith "end without case");
          cur := None
        | _ -> ops := parse_op toks :: !ops
      done
    with End_of_file -> ());
-  close_in ic
+  close_in ic;
+  (match !selfcheck_out with Some oc -> close_out oc | None -> ())
